@@ -362,3 +362,6 @@ if r != B // 770: reproduced(f'int({{B}}/2/385) = {{r}} != {{B // 770}}')
 not_reproduced()
 """
     return None
+
+# level text addendum (cases added after the seeded-change rounds)
+LEVEL_TEXT = LEVEL_TEXT + ' Also: the file growing or shrinking between construction / first open and open(), ignore_warnings symbolic, in-progress metadata without a duration, compressed streams replayed on real mtscomp files.'
